@@ -40,7 +40,7 @@ class MPUFileSink:
 
     @property
     def max_write_sz(self) -> int:
-        return self._limits.get("min_write_sz", 5 * (1 << 30))
+        return self._limits.get("max_write_sz", 5 * (1 << 30))
 
     @property
     def min_part(self) -> int:
